@@ -19,6 +19,7 @@ package dpt
 
 //@ func unpackF16(data []byte, f *float32) (err error)
 //@   props C07
+//@   inline
 //@   requires f != nil
 //@   ensures [accepts] len(data) == 3 <==> err == nil
 //@   assigns *f
